@@ -32,8 +32,8 @@ type reuseKey struct {
 
 func (k *reuseKey) CSRs() []*proto.SSHCertificateSigningRequest { return k.csrs }
 
-func (h *reuseHandler) Name() string                         { return "verif.reuse" }
-func (h *reuseHandler) Authenticate(p *csr.ReqParam) error   { return nil }
+func (h *reuseHandler) Name() string                       { return "verif.reuse" }
+func (h *reuseHandler) Authenticate(p *csr.ReqParam) error { return nil }
 func (h *reuseHandler) Generate(p *csr.ReqParam) ([]csr.AgentKey, error) {
 	if h.key == nil {
 		opt := agssh.DefaultKeyOpt
